@@ -11,16 +11,24 @@ import (
 
 	"go.nanomsg.org/mangos/v3"
 	"go.nanomsg.org/mangos/v3/protocol/xreq"
+	"go.nanomsg.org/mangos/v3/protocol/xsub"
 	"go.nanomsg.org/mangos/v3/protocol/xsurveyor"
 )
 
-func runRawRecvScenario(c *Ctx, surveyor bool, nops int) {
+func runRawRecvScenario(c *Ctx, kind int, nops int) {
 	var proto mangos.ProtocolBase
 	name := "xreq"
-	if surveyor {
+	idLen := 4
+	switch kind % 3 {
+	case 1:
 		proto = xsurveyor.NewProtocol()
 		name = "xsurveyor"
-	} else {
+	case 2:
+		// XSUB: nothing is split off, a message that finds the queue full is dropped at once
+		proto = xsub.NewProtocol()
+		name = "xsub"
+		idLen = 0
+	default:
 		proto = xreq.NewProtocol()
 	}
 	e := NewExec(c, "m.rawq", proto, name)
@@ -38,12 +46,15 @@ func runRawRecvScenario(c *Ctx, surveyor bool, nops int) {
 				continue
 			}
 			whole := append(append([]byte{}, ev.hdr...), ev.msg...)
-			if len(ev.hdr) != 4 {
-				c.Violate(fmt.Sprintf("%s: Recv returned a message whose header is %d bytes (%x), not the four-byte id", name, len(ev.hdr), ev.hdr), e.Replay())
+			if len(ev.hdr) != idLen {
+				c.Violate(fmt.Sprintf("%s: Recv returned a message whose header is %d bytes (%x), not %d", name, len(ev.hdr), ev.hdr, idLen), e.Replay())
 				continue
 			}
 			if !sent[string(whole)] {
 				c.Violate(fmt.Sprintf("%s: Recv returned %x|%x, which no peer sent", name, ev.hdr, ev.msg), e.Replay())
+				continue
+			}
+			if len(whole) < 4 {
 				continue
 			}
 			p := 520 + int(whole[1])
@@ -67,8 +78,12 @@ func runRawRecvScenario(c *Ctx, surveyor bool, nops int) {
 			if len(pipes) > 0 {
 				p := pipes[c.R.Intn(len(pipes))]
 				if c.R.Intn(8) == 0 {
-					// too short to carry an id
-					e.Inject(p, []byte{0x80, byte(p - 520), 9}[:c.R.Intn(4)])
+					// too short to carry an id (XSUB delivers it like any other)
+					b := []byte{0x80, byte(p - 520), 9}[:c.R.Intn(4)]
+					if idLen == 0 {
+						sent[string(b)] = true
+					}
+					e.Inject(p, b)
 				} else {
 					pseq[p]++
 					b := []byte{0x80, byte(p - 520), byte(pseq[p] >> 8), byte(pseq[p])}
